@@ -27,6 +27,8 @@ class Scenario:
             "constants": self.sweep.constants, "N": self.N,
             "batching": self.batching, "shuffle": self.shuffle,
         }
+        if getattr(self, "farmer", None):
+            d["farmer"] = self.farmer
         return d
 
 
